@@ -240,6 +240,25 @@ def myokit_to_gotran(model: myokit.Model, protocol=None) -> ODE:
     )
 
 
+class SymPyExpressionReader(myokit.formats.sympy.SymPyExpressionReader):
+    """Expression reader that accepts And / Or with more than two operands.
+    In sympy these can have any number of operands (and are always flattened),
+    while the operators in myokit are binary"""
+
+    def _ex_nary(self, e, operator):
+        operands = [self.ex(x) for x in e.args]
+        result = operands[0]
+        for operand in operands[1:]:
+            result = operator(result, operand)
+        return result
+
+    def _ex_and(self, e):
+        return self._ex_nary(e, myokit.And)
+
+    def _ex_or(self, e):
+        return self._ex_nary(e, myokit.Or)
+
+
 def gotran_to_myokit(ode: ODE, time_component="engine", time_unit="s") -> myokit.Model:
     """Convert a gotran ODE to myokit model
 
@@ -300,7 +319,7 @@ def gotran_to_myokit(ode: ODE, time_component="engine", time_unit="s") -> myokit
             global_var_map[sp.Symbol(intermediate.name)] = sp.Symbol(var.qname())
             global_var_map[intermediate.symbol] = sp.Symbol(var.qname())
 
-    sympy_reader = myokit.formats.sympy.SymPyExpressionReader(model=model)
+    sympy_reader = SymPyExpressionReader(model=model)
     # Then we can add expressions
     for component in ode.components:
         comp = model[component.name]
